@@ -136,6 +136,12 @@ def spec_detach(A, V, x):
 
 def spec_insert(op, A, V, t, x):
     """op in append/prepend/insert_after/insert_before; t = self (target), x = moved node"""
+    npar, nprv = insert_abstraction(op, A, t, x)
+    return full_equal(V, npar, nprv, [A.live(i) for i in range(A.N)], 'C03.' + op, only=lambda i: A.live(i))
+
+
+def insert_abstraction(op, A, t, x):
+    """expected (parent, prev) arrays after a successful insert"""
     par, prv = detached(A, x)
     N = A.N
     npar, nprv = [], []
@@ -169,7 +175,7 @@ def spec_insert(op, A, V, t, x):
             nprv.append(_ite_opt(isx, prev_t, _ite_opt(ist, some(x), prv[i])))
     else:
         raise ValueError(op)
-    return full_equal(V, npar, nprv, [A.live(i) for i in range(A.N)], 'C03.' + op, only=lambda i: A.live(i))
+    return npar, nprv
 
 
 def spec_append_new(A, V, t, newidx):
